@@ -108,7 +108,9 @@ Section Loaded.
   Lemma src_row_inv : forall w r, src_row ds w = Some r ->
     exists rows, nth_error ds (N.to_nat (dic_part w)) = Some rows /\ nth_error rows (N.to_nat (word_part w)) = Some r.
   Proof.
-    intros w r H. unfold src_row, rows_of in H.
+    intros w r H. unfold src_row in H. cbv zeta in H.
+    destruct (word_part w <? N.of_nat (List.length (rows_of ds (dic_part w)))); [|discriminate].
+    unfold rows_of in H.
     destruct (nth_error ds (N.to_nat (dic_part w))) as [rows|] eqn:E.
     - exists rows. split; [reflexivity|]. rewrite (nth_error_nth _ _ _ E) in H. exact H.
     - apply nth_error_None in E. rewrite nth_overflow in H by exact E. destruct (N.to_nat (word_part w)); discriminate.
